@@ -223,6 +223,16 @@ func (m *model) find(id uint16) *entry {
 	return nil
 }
 
+// unusedID returns an identifier no queued entry carries, starting the search
+// at from (an "unknown id" acknowledgement must really be unknown: generated
+// identifiers cover the whole range).
+func (m *model) unusedID(from uint16) uint16 {
+	for m.find(from) != nil || from == 0 {
+		from++
+	}
+	return from
+}
+
 func (m *model) terminal(e *entry) bool { return e.step == len(m.r.steps) }
 
 // Op is one operation of a history (JSON form is the replay format).
@@ -352,7 +362,7 @@ func run(c Case) (fail string, hol, grewWrapped bool) {
 			e := m.find(op.ID)
 			if e == nil || e.step == 0 {
 				serial++
-				am, _, _, _ := buildAck(r.steps[0], 9999, serial)
+				am, _, _, _ := buildAck(r.steps[0], m.unusedID(9999), serial)
 				q.Ack(am)
 				break
 			}
@@ -361,7 +371,7 @@ func run(c Case) (fail string, hol, grewWrapped bool) {
 			}
 		case "unknown":
 			serial++
-			am, _, _, _ := buildAck(r.steps[len(r.steps)-1], 60000, serial)
+			am, _, _, _ := buildAck(r.steps[len(r.steps)-1], m.unusedID(60000), serial)
 			q.Ack(am)
 		case "acked":
 			if f := checkAcked(where); f != "" {
